@@ -1157,6 +1157,10 @@ impl<T: Payload> World<T> {
         let mark = payload::ledger_mark();
         let raw = raw_insert(&mut self.arena, kind, checked, ida, idb);
         out.class = raw.class;
+        if raw.class == Class::Err {
+            // the error (its class, not the variant's name) is part of the event log
+            self.log.str(err_class(&raw.text));
+        }
         let name = Op::Insert { kind, checked, a, b }.name();
         let what = format!("{}({})", name, rel.name());
         // reach probes
